@@ -282,6 +282,13 @@ def generate(run_seed, fault_config="all", jit=False, max_ops=12, max_faults=1, 
     rate = frng.choice([0.25, 0.45, 0.7])
     tar_paths = ["a.tar", "b.tar", "dir.v1/c.tar"]
     yaml_paths = ["a.yaml", "b.yaml", "c.out"]
+    if cfg.random() < 0.35:
+        # file names are the caller's: several dots, a stem that is also the name of an archive member or of
+        # an observable, blanks, non-ASCII and glob characters, a directory with a blank
+        tar_paths = cfg.sample(["my.results.v2.tar", "F2_total.tar", "metadata.tar", "runcards.tar", "run 1/\u00fc[1].tar",
+                                "a.tar", "dir.v1/c.tar", "F2.yaml.tar"], 3)
+        yaml_paths = cfg.sample(["a.yaml", "out.tar.yaml", "run 1/caf\u00e9 *.yml", "noext", "b.yaml"], 3)
+    pstyles = cfg.choice([["str"], ["str"], ["str", "pathlib"], ["pathlib"], ["str", "pathlib", "relative"]])
     nclients = cfg.randint(1, 3)
     ops = []
     live = {}  # handle -> True ; abstract
@@ -314,6 +321,7 @@ def generate(run_seed, fault_config="all", jit=False, max_ops=12, max_faults=1, 
         elif kind in ("dump_tar", "dump_yaml_file"):
             op["handle"] = ops_rng.choice(sorted(live))
             op["path"] = ops_rng.choice(tar_paths if kind == "dump_tar" else yaml_paths)
+            op["pstyle"] = ops_rng.choice(pstyles)
             files[op["path"]] = "tar" if kind == "dump_tar" else "yaml"
         elif kind == "dump_yaml_stream":
             op["handle"] = ops_rng.choice(sorted(live))
@@ -323,6 +331,7 @@ def generate(run_seed, fault_config="all", jit=False, max_ops=12, max_faults=1, 
             p = ops_rng.choice(sorted(files))
             op["op"] = "load_tar" if files[p] == "tar" else "load_yaml_file"
             op["path"] = p
+            op["pstyle"] = ops_rng.choice(pstyles)
             op["handle"] = f"H{hcount}"
             live[op["handle"]] = True
             hcount += 1
@@ -348,6 +357,10 @@ def generate(run_seed, fault_config="all", jit=False, max_ops=12, max_faults=1, 
             live = {}
             streams = []
         op["faults"] = gen_io_faults(frng, op["op"], enabled, rate, max_faults) if op["op"] in DUMPS + LOADS else []
+        # simulated time that passes before the op (file modification times are simulated, fsim.FaultFS.now)
+        dt = cards.wchoice(ops_rng, [(0, 5), (0.3, 2), (1.0, 1), (2.5, 1), (86400.0, 0.5)])
+        if dt:
+            op["dt"] = dt
         ops.append(op)
     # bounded liveness: once faults stop, dump-then-load of a live object on every used path works
     if live and ops_rng.random() < 0.7:
@@ -403,7 +416,15 @@ class Execution:
         self.violations.append({"oracle": oracle, "at_op": at_op, "op": self.trace["ops"][at_op]["op"],
                                 "what": what, "detail": detail, "tags": sorted(set(tags or []))})
 
-    def path(self, rel):
+    def path(self, rel, style="str"):
+        """The path as the caller spells it: an absolute string, a pathlib.Path, or a string relative to the
+        current directory (the run's data directory is the current directory for the whole run)."""
+        if style == "pathlib":
+            import pathlib
+
+            return pathlib.Path(self.data) / rel
+        if style == "relative":
+            return rel
         return os.path.join(self.data, rel)
 
     def run(self):
@@ -412,10 +433,14 @@ class Execution:
         self.root = tempfile.mkdtemp(prefix="yadsim-c15-")
         self.data = os.path.join(self.root, "data")
         os.makedirs(os.path.join(self.data, "dir.v1"))
+        os.makedirs(os.path.join(self.data, "run 1"))
         self.fs = FaultFS(self.sched, self.root).install()
+        cwd0 = os.getcwd()
+        os.chdir(self.data)
         try:
             prev = "init"
             for i, op in enumerate(self.trace["ops"]):
+                self.fs.now += float(op.get("dt", 0))
                 self.sched.begin_op(i, op.get("faults"))
                 self.fs.begin_op()
                 n0 = len(self.sched.fired)
@@ -447,6 +472,7 @@ class Execution:
             if not self.violations:
                 self.final_durability()
         finally:
+            os.chdir(cwd0)
             self.fs.remove()
             shutil.rmtree(self.root, ignore_errors=True)
         return self.report()
@@ -469,10 +495,9 @@ class Execution:
         self.live = {}
         self.streams = {}
         self.log(i, kind, "crashed")
-        # clean the private temp area the dead process left behind
-        tmp = os.path.join(self.root, "tmp")
-        for name in os.listdir(tmp):
-            shutil.rmtree(os.path.join(tmp, name), ignore_errors=True)
+        # whatever the dead process left in the temp area (its TemporaryDirectory with the staged npz / yaml
+        # files, a half-extracted archive) stays there, as it would in /tmp: files survive a crash
+        self.probes["temp_leftovers_after_crash"] += len(os.listdir(os.path.join(self.root, "tmp")))
 
     def check_live(self, i, op):
         """Cross-invariant: no op changes a live object it was not asked to scribble on."""
@@ -634,9 +659,9 @@ class Execution:
                 self.probes["redump_of_loaded_object"] += 1
             try:
                 if kind == "dump_tar":
-                    v["out"].dump_tar(self.path(op["path"]))
+                    v["out"].dump_tar(self.path(op["path"], op.get("pstyle", "str")))
                 elif kind == "dump_yaml_file":
-                    v["out"].dump_yaml_to_file(self.path(op["path"]))
+                    v["out"].dump_yaml_to_file(self.path(op["path"], op.get("pstyle", "str")))
                 else:
                     buf = io.StringIO()
                     r = v["out"].dump_yaml(buf)
@@ -685,9 +710,9 @@ class Execution:
             tags = self.tags_for(src)
             try:
                 if kind == "load_tar":
-                    out = Output.load_tar(self.path(op["path"]))
+                    out = Output.load_tar(self.path(op["path"], op.get("pstyle", "str")))
                 elif kind == "load_yaml_file":
-                    out = Output.load_yaml_from_file(self.path(op["path"]))
+                    out = Output.load_yaml_from_file(self.path(op["path"], op.get("pstyle", "str")))
                 else:
                     out = Output.load_yaml(io.StringIO(src["text"]))
             except SimCrash:
